@@ -64,6 +64,9 @@ FIXED = [  # (id, property, commit, key regex, what failed)
  ("F62","C13","30969a5",r"query_evidence:query:evidence-outside-adjustment-set","CausalInference.query dropped evidence outside the adjustment set from the inner query"),
  ("F63","C13","e557fb6",r"minimal_adjustment:get_minimal_adjustment_set:descendant-of-treatment","get_minimal_adjustment_set could return a descendant of the treatment"),
  ("F61","C13","12577b6",r"query_multi_do:query:multi-do:parent-child","CausalInference.query adjusted for a variable that is itself intervened on"),
+ ("F66","C08","b49bb3e",r"E1:DAG\.active_trail_nodes\[variables=(single|list),observed=single\]/loop[01]\.init#0|active_trails:(is_dconnected:bare-observed|active_trail_nodes:multi-start)","active_trail_nodes(start, observed=n) ignored a single observed node n with a falsy label (node 0, ''): `if observed:`; found by E1 (z3 refutation of the loop-init obligations once label truthiness was made symbolic), replayed: DAG([(1,0),(0,2)]).active_trail_nodes(1, observed=0)"),
+ ("F64","C01","4590d99",r"ve_virtual:raised:TypeError","virtual evidence on a variable with a non-string label (e.g. integer node names) raised TypeError: the auxiliary node name was built as '__' + label"),
+ ("F65","C01","1747c08",r"bn_api:raised:TypeError","predict_probability on variables with non-string labels raised TypeError: the column name was built as label + '_' + state"),
 ]
 KNOWN = [  # (id, property, key regex, what fails) - still present in /repo; see DESIGN.md §12 for why each is not repaired
  ("K05","C02",r"fg_ve:VariableElimination\.query:fg:raised:AttributeError","VariableElimination(FactorGraph).query raises AttributeError (FactorGraph has no `states`); needs a new attribute on FactorGraph - not a small repair"),
@@ -92,6 +95,7 @@ KNOWN = [  # (id, property, key regex, what fails) - still present in /repo; see
  ("K02","C18",r"closure:incomplete:contraction-empty-context","Independencies.closure misses contraction with empty context (X_|_Y, X_|_W|Y => X_|_{Y,W}); same line as K01, pinned by test_closure"),
  ("K03","C18",r"minimal_imap:not-an-imap","JointProbabilityDistribution.minimal_imap(['a','b']) of a dependent pair returns a graph without edges (adds no parents when no proper subset works; pairwise tests); needs a rewrite (~20 lines)"),
  ("K04","C10",r".*BDsScore\.local_score:unobserved-(configs|child-state)|structure_score:bds.*|.*BDsScore.*:value.*","BDsScore uses beta = ess/(r*q) instead of ess/(r*q_observed) and subtracts an extra adjustment; stable test TestBDsScore::test_score pins the current numbers"),
+ ("K28","C08",r"independencies:non-string-labels:raised","DAG.get_independencies / local_independencies raise TypeError / ValueError on DAGs whose node labels are not strings (e.g. integers, 0 being falsy): IndependenceAssertion is documented for str names only (`_return_list_if_not_collection`, `if not event1`); accepting arbitrary hashable labels changes that class's documented interface (tuples are valid labels elsewhere) - not a small repair"),
 ]
 def main():
     head = subprocess.check_output(["git","-C","/repo","log","--format=%h","fe1f674..HEAD"]).decode().split()
